@@ -600,6 +600,79 @@ def scan_switch(repo):
 
 
 # ---------------------------------------------------------------------------------------------------------------
+# every place of nixio/**/*.py (tests excluded) that names the time stamp machinery
+
+
+STAMP_ATTRS = ("updated_at", "created_at")
+
+
+def scan_stamp_sites(repo):
+    """-> sorted [(file, scope, kind, count)].  Every AST node naming one of STAMP_WORDS (attribute, bare name, the
+    attribute names as string constants, names in import statements) is classified by where it stands:
+
+      member      in a method of a class of nixio/*.py that the member table analyses (the flow analysis, the
+                  creator / force / getter / File.__init__ renderings account for every such mention or fail)
+      definition  inside util/util.py's own `now_int` / `time_to_str` / `str_to_time` (+ a docstring mention)
+      export      import statement / `__all__` entry of util/__init__.py
+      read        a *load* of `x.created_at` / `x.updated_at` (validator, the explore tool): reads a getter
+      tool        nixio/cmd/upgrade.py: the file format converter writes the stamps of objects it creates with h5py
+      stray       anything else: module level code and plain functions of nixio/*.py, the HDF5 layer nixio/hdf5/**,
+                  other helper modules, stores outside the classes
+    """
+    rows = {}
+    root = os.path.join(repo, "nixio")
+    for f in sorted(glob.glob(os.path.join(root, "**", "*.py"), recursive=True)):
+        rel = os.path.relpath(f, root).replace(os.sep, "/")
+        if rel.split("/")[0] == "test":
+            continue
+        tree = ast.parse(open(f, encoding="utf-8").read(), filename=f)
+        top = "/" not in rel
+        analysed = top and rel not in SKIP_MODULES
+
+        def hit(n):
+            if isinstance(n, ast.Attribute) and n.attr in STAMP_WORDS:
+                return "load" if isinstance(n.ctx, ast.Load) and n.attr in STAMP_ATTRS else "other"
+            if isinstance(n, ast.Name) and n.id in STAMP_WORDS:
+                return "other"
+            if isinstance(n, ast.Constant) and n.value in STAMP_WORDS:
+                return "other"
+            if isinstance(n, ast.alias) and n.name in STAMP_WORDS:
+                return "import"
+            if isinstance(n, (ast.FunctionDef, ast.AsyncFunctionDef)) and n.name in STAMP_WORDS:
+                return "def"
+            return None
+
+        def classify(n, cls, fn, how):
+            if analysed and cls is not None and (fn is not None or how == "def"):
+                return "member"
+            if rel == "util/util.py" and (how == "def" or fn in ("now_int", "time_to_str", "str_to_time")):
+                return "definition"
+            if rel == "util/__init__.py" and (how == "import" or (cls is None and fn is None)):
+                return "export"
+            if rel == "cmd/upgrade.py":
+                return "tool"
+            if how == "load":
+                return "read"
+            return "stray"
+
+        def walk(node, cls, fn):
+            for ch in ast.iter_child_nodes(node):
+                c2, f2 = cls, fn
+                how = hit(ch)
+                if how is not None:
+                    scope = "%s.%s" % (cls, fn) if cls and fn else (fn or cls or "<module>")
+                    key = (rel, scope, classify(ch, cls, fn, how))
+                    rows[key] = rows.get(key, 0) + 1
+                if isinstance(ch, ast.ClassDef):
+                    c2, f2 = ch.name, None
+                elif isinstance(ch, (ast.FunctionDef, ast.AsyncFunctionDef)):
+                    f2 = fn or ch.name          # nested functions belong to the enclosing one
+                walk(ch, c2, f2)
+        walk(tree, None, None)
+    return sorted((a, b, c, n) for (a, b, c), n in rows.items())
+
+
+# ---------------------------------------------------------------------------------------------------------------
 # creation: what a class's `create_new` and the `create_*` factories do to the time stamps of the NEW entity
 
 
@@ -1131,6 +1204,26 @@ def _render_creation(repo, order, members, memnames):
     L.append("")
     L.append("def switchUses : List SwitchUseAt := [")
     L.append(",\n".join("  ⟨%s, %s, %s, .%s⟩" % (lean_str(f), lean_str(c), lean_str(fn), u) for f, c, fn, u, _ in uses))
+    L.append("]")
+    L.append("")
+    L.append("/-- where a mention of the time stamp machinery (`created_at`, `updated_at`, `force_*_at`, `now_int`,")
+    L.append("`time_to_str`, the switch) stands: `member` = in a method of a class the member table analyses; `definition` =")
+    L.append("util/util.py's own `now_int` / `time_to_str` / `str_to_time`; `export` = util/__init__.py's import list;")
+    L.append("`read` = a load of `x.created_at` / `x.updated_at` elsewhere (validator, explore tool); `tool` = the file format")
+    L.append("converter nixio/cmd/upgrade.py; `stray` = anything else (module level code or plain functions of nixio/*.py,")
+    L.append("the HDF5 layer, helper modules) -/")
+    L.append("inductive SiteKind where | member | definition | export | read | tool | stray")
+    L.append("  deriving DecidableEq, Repr")
+    L.append("structure StampSite where")
+    L.append("  file : String")
+    L.append("  scope : String")
+    L.append("  kind : SiteKind")
+    L.append("  mentions : Nat")
+    L.append("  deriving Repr")
+    L.append("")
+    L.append("/-- every place of nixio/**/*.py (tests excluded) that names the machinery, grouped by file and scope -/")
+    L.append("def stampSites : List StampSite := [")
+    L.append(",\n".join("  ⟨%s, %s, .%s, %d⟩" % (lean_str(a), lean_str(b), c, n) for a, b, c, n in scan_stamp_sites(repo)))
     L.append("]")
     L.append("")
     L.append("/-- what a creating function does to the entity it creates, in program order along the normal path:")
